@@ -70,3 +70,23 @@ Proof.
   constructor; [|constructor].
   split; [split; [reflexivity | split; [reflexivity | vm_compute; tauto]] | split; [vm_compute; lia | reflexivity]].
 Qed.
+
+(* Function declarations `R name ( args ) ;` - single (non-pair) return type, no template, no default values: the
+   GlobalFunction rule consumes exactly the declaration, whatever follows, and the constructors rebuild the
+   GlobalFunction node with exactly that name, return type and arguments. *)
+Theorem C01_function_roundtrip : forall t name args, wf_ty t -> depth t < depth_fuel -> wf_head t ->
+  is_ident (chars_of name) = true -> Forall wf_arg args ->
+  forall p R f, fn_fuel t args <= f ->
+  exists v p', interp spec_grammar f (GRef "GlobalFunction") {| pk := p; rest := render (fn_toks t name args) R |}
+               = Match [([], v)] {| pk := p'; rest := R |}
+               /\ b_decl depth_fuel v = Ok (DFun {| f_tmpl := None; f_name := name; f_ret := RSingle t; f_args := map mk_arg args |}).
+Proof. exact function_roundtrip. Qed.
+Print Assumptions C01_function_roundtrip.
+
+Example C01_function_nonvacuous :
+  wf_head sample_type /\
+  string_of (render (fn_toks (TPlain (tn [] "void") false PNone true) "f" [(TPlain (tn ["gtsam"] "Pose3") true PRef false, "p")]) [])
+  = " void f ( const gtsam :: Pose3 & p ) ;".
+Proof.
+  split; [|reflexivity]. eexists. eexists. split; [reflexivity|]. repeat split; try discriminate; reflexivity.
+Qed.
